@@ -222,3 +222,41 @@ def effective(body):
                 continue
         out.append(st)
     return out
+
+
+_OPTXT = {ast.Lt: "<", ast.Gt: ">", ast.LtE: "<=", ast.GtE: ">=", ast.Eq: "==", ast.NotEq: "!=", ast.In: "in", ast.NotIn: "not in", ast.Is: "is", ast.IsNot: "is not"}
+
+
+def cmp_views(t: ast.AST):
+    """{(left text, operator, right text)} of a single-operator comparison, in both spellings where the operator can be mirrored."""
+    out = set()
+    if isinstance(t, ast.Compare) and len(t.ops) == 1:
+        l, r = " ".join(ast.unparse(t.left).split()), " ".join(ast.unparse(t.comparators[0]).split())
+        op = type(t.ops[0])
+        out.add((l, _OPTXT.get(op, "?"), r))
+        if op in _FLIP:
+            out.add((r, _OPTXT[_FLIP[op]], l))
+    return out
+
+
+def has_cmp(root: ast.AST, left: str, op: str, right: str) -> bool:
+    """some comparison under `root` reads  left op right  (in either spelling)."""
+    return any((left, op, right) in cmp_views(n) for n in ast.walk(root) if isinstance(n, ast.Compare))
+
+
+def zero_test(test: ast.AST, var: str):
+    """how a condition relates to `var` being zero: 'zero' when it is true exactly for a zero / non-positive value
+    (`p == 0`, `0 == p`, `p <= 0`, `not p`), 'nonzero' when it is true exactly for a non-zero / positive value
+    (`p > 0`, `0 < p`, `p != 0`, `p`), None otherwise."""
+    if isinstance(test, ast.Name) and test.id == var:
+        return "nonzero"
+    if isinstance(test, ast.UnaryOp) and isinstance(test.op, ast.Not):
+        r = zero_test(test.operand, var)
+        return {"zero": "nonzero", "nonzero": "zero"}.get(r)
+    views = cmp_views(test)
+    for z in ("0", "0.0"):
+        if (var, "==", z) in views or (var, "<=", z) in views:
+            return "zero"
+        if (var, ">", z) in views or (var, "!=", z) in views:
+            return "nonzero"
+    return None
